@@ -54,6 +54,9 @@ var genbankHarness = boundedHarness{prop: "C01", subject: "seqio.GenBankParser",
 		{"record-writes", "empty-region"},
 	}}
 
+var originHarness = boundedHarness{prop: "C16", subject: "seqio.makeGenbankOriginParser", pos: "seqio/genbank_subparsers.go", file: "origin_bounded_test.go", pkgDir: "seqio", test: "TestVerifBoundedOrigin",
+	clauses: []string{"valid-block-accepted-lf", "valid-block-accepted-crlf", "valid-block-accepted-padded", "valid-block-accepted-crlf-padded", "corrupted-block-rejected"}}
+
 func (e *Engine) runBounded(h boundedHarness, repo, verif, tier string, seed int) ([]*Obligation, map[string]interface{}) {
 	info := map[string]interface{}{}
 	src := filepath.Join(verif, "bounded", h.file)
